@@ -194,7 +194,7 @@ def step (line : String) : String :=
       | .status ia => if ia then "err invalid-argument" else "err internal"
       | .refused => "ok refused tmf"
       | .panic => "panic"
-      | .resp ids docs p t => s!"ok partial={fmtBool p} total={t} ids={fmtIDs ids} docs={fmtNats docs}"
+      | .resp ids docs p t => s!"ok partial={fmtBool p} total={toInt64 t} ids={fmtIDs ids} docs={fmtNats docs}"
     | _, _, _, _, _, _, _, _ => "bad-op"
   | _ => "bad-op"
 
